@@ -263,6 +263,13 @@ cluster_t dtree_wlearner_t::do_split(const dataset_t& dataset, const indices_t& 
         const auto split = splits.front();
         assert(split.first < m_nodes.size());
 
+        // NB: no sample reaches this node!
+        if (split.second.size() == 0)
+        {
+            splits.pop_front();
+            continue;
+        }
+
         const auto& node         = m_nodes[split.first];
         const auto& node_samples = split.second;
         const auto  node_cluster = stump_wlearner_t::split(dataset, node_samples, node.m_feature, node.m_threshold);
